@@ -852,3 +852,112 @@ def detect_group_mode(repo):
     if found == [glob]:
         return "GGlobal"
     raise ValueError("ClauseDB._compile: unrecognised group id rule %r" % (found,))
+
+
+# ------------------------------------------------------------------ which redirect lookup does the code use?
+_GET_NODE_CHAINED = """
+def get_node(self, index):
+    index = self._resolve_redirect(index)
+    if index < self.__offset:
+        return self.__parent.get_node(index)
+    else:
+        return self.__nodes[index - self.__offset]
+"""
+_RESOLVE_CHAINED = """
+def _resolve_redirect(self, index):
+    if self.__parent is not None and index < self.__offset:
+        index = self.__parent._resolve_redirect(index)
+    return self.__node_redirect.get(index, index)
+"""
+
+
+def _fn_dump(fn):
+    body = list(fn.body)
+    if body and isinstance(body[0], ast.Expr) and isinstance(getattr(body[0], "value", None), ast.Constant) \
+            and isinstance(body[0].value.value, str):
+        body = body[1:]                                  # docstring
+    return [ast.dump(x) for x in body], ast.dump(fn.args)
+
+
+def detect_redirect_mode(repo):
+    """Fail-closed look at ClauseDB.get_node / _resolve_redirect: the model (ModelClauseDB.get_node /
+    resolve) describes exactly the chained lookup (redirects of the whole parent chain, oldest database
+    first).  Anything else raises."""
+    src = open(os.path.join(repo, "problog", "clausedb.py")).read()
+    tree = ast.parse(src)
+    fns = {}
+    for cls in tree.body:
+        if isinstance(cls, ast.ClassDef) and cls.name == "ClauseDB":
+            for fn in cls.body:
+                if isinstance(fn, ast.FunctionDef) and fn.name in ("get_node", "_resolve_redirect"):
+                    fns.setdefault(fn.name, []).append(fn)
+    want_g = _fn_dump(ast.parse(_GET_NODE_CHAINED).body[0])
+    want_r = _fn_dump(ast.parse(_RESOLVE_CHAINED).body[0])
+    if len(fns.get("get_node", [])) == 1 and len(fns.get("_resolve_redirect", [])) == 1 \
+            and _fn_dump(fns["get_node"][0]) == want_g and _fn_dump(fns["_resolve_redirect"][0]) == want_r:
+        return "chained"
+    raise ValueError("ClauseDB.get_node/_resolve_redirect: not the chained redirect lookup the model describes")
+
+
+# ------------------------------------------------------------------ get_node of the implementation, index by index
+def get_obs(path):
+    """For the database at the end of `path` (list of DBNodes, root first): the pairs (i, j), j != i, such
+    that db.get_node(i) IS the object physically stored at global position j (identity of the node
+    objects; the empty placeholder () is the only shared object and is located at i itself or at the
+    first placeholder).  The library alias forall/2 is not modelled: its index is left out."""
+    db = path[-1].db
+    raw = []
+    for n in path:
+        raw += list(priv(n.db, "nodes"))
+    if len(raw) != len(db):
+        raise ValueError("node tables of the path do not add up to len(db)")
+    where = {}
+    for j, x in enumerate(raw):
+        if x != ():
+            if id(x) in where:
+                raise ValueError("one node object stored at two positions")
+            where[id(x)] = j
+    fa = dict(priv(path[0].db, "heads")).get("forall/2")
+    empties = [j for j, x in enumerate(raw) if x == ()]
+    out = []
+    for i in range(len(raw)):
+        if i == fa:
+            continue
+        r = db.get_node(i)
+        if r == ():
+            j = i if raw[i] == () else (empties[0] if empties else None)
+            if j is None:
+                raise ValueError("get_node returned a placeholder but there is none")
+        else:
+            j = where.get(id(r))
+            if j is None:
+                raise ValueError("get_node returned an object that is not stored in the chain")
+        if j != i:
+            out.append((i, j))
+    return out
+
+
+def cget_obs(path):
+    return clist(["(%s, %s)" % (cnat(i), cnat(j)) for i, j in get_obs(path)])
+
+
+def call_resolution_failures(db):
+    """Property-level: every call node (of any ancestor) read through db must reach the define node that
+    db.find gives for the called predicate (same children).  -> list of texts"""
+    from problog.logic import Term
+    bad = []
+    for i in range(len(db)):
+        n = db.get_node(i)
+        if n == () or type(n).__name__ != "call" or not isinstance(n.functor, str):
+            continue
+        if n.defnode < 0 or n.functor.startswith("body_"):
+            continue
+        tgt = db.get_node(n.defnode)
+        head = db.find(Term(n.functor, *([None] * len(n.args))))
+        cur = db.get_node(head) if head is not None else None
+        a = list(tgt.children) if tgt and type(tgt).__name__ == "define" else []
+        b = list(cur.children) if cur and type(cur).__name__ == "define" else []
+        if head is None or a != b:
+            bad.append("call node %d (%s/%d) reaches clauses %r, the database defines %r"
+                       % (i, n.functor, len(n.args), a, b))
+    return bad
